@@ -19,6 +19,12 @@ IR (hashable tuples):
  ("copy", L) ("removeone", L, x) ("appended", L, x)
  ("phi", cond, a, b) ("carried", name, loop) ("acc", name) ("unknown", text)
  ("lambda", (("bv", param, uid), ...), body)      a lambda / a nested single-return def used as a value
+ ("raise", exc)                                   leaf of the phi value of an inlined helper on a path that raises (Flow(raise_arms=True))
+
+simp also reads stdlib spellings as the displays / comprehensions they are equal to: functools.reduce over a display (unfolded),
+map(f, X) (a generator), [a, *[b, c]] (one display), [f(x) for x in L][a:b] and [..][k] (slice / element moved inside), format(),
+getattr(x, "name"); Flow reads "text %s" % (..) and "text {}".format(..) as f-strings.  as_map / as_dict_map view list- and dict-valued
+IR as one map over a base sequence / table.
 """
 from __future__ import annotations
 
